@@ -209,6 +209,22 @@ func (ft *fnTrans) run() {
 	}
 	ft.collectNames()
 	ft.findLoops()
+	// package invariants: assumed on entry of every function of the package (the initialiser establishes them)
+	isInit := fn.Synthetic == "package initializer"
+	if ft.pkg != nil && !isInit {
+		ienv := ft.envAt(ft.entry, nil, nil)
+		for _, inv := range vc.P.cs.PkgInvs[ft.pkg.Path()] {
+			t, err := ienv.Bool(inv.Expr)
+			if err != nil {
+				panic(specErr{fmt.Sprintf("pkginvariant %q: %v", inv.Src, err)})
+			}
+			vc.assume(t)
+			vc.assumed["package invariant "+inv.Name+" (established by the package initialiser, re-established by every function under contract whose frame contains a package variable; writers checked to be under contract)"] = true
+		}
+	}
+	if isInit && ft.pkg != nil && len(vc.P.cs.PkgInvs[ft.pkg.Path()]) > 0 {
+		ft.checkInvariantWriters()
+	}
 	// preconditions
 	penv := ft.envAt(ft.entry, nil, nil)
 	entryPos := len(vc.lines)
@@ -404,6 +420,19 @@ func (ft *fnTrans) findLoops() {
 		li := ft.loops[h]
 		li.ordinal = k
 		li.spec = ft.fc.Loops[k]
+		// package invariants are invariants of every loop of the package's functions (the function itself never
+		// stores to a package variable between calls that re-establish them, or it is checked at that point)
+		if ft.pkg != nil && ft.fn.Synthetic != "package initializer" {
+			if invs := ft.vc.P.cs.PkgInvs[ft.pkg.Path()]; len(invs) > 0 {
+				merged := &LoopSpec{}
+				if li.spec != nil {
+					merged.Invariants = append(merged.Invariants, li.spec.Invariants...)
+					merged.Decreases = li.spec.Decreases
+				}
+				merged.Invariants = append(merged.Invariants, invs...)
+				li.spec = merged
+			}
+		}
 		for _, ins := range li.header.Instrs {
 			if phi, ok := ins.(*ssa.Phi); ok && phi.Comment == "rangeindex" {
 				li.rangeIx = phi
@@ -535,7 +564,7 @@ func (ft *fnTrans) envAt(h Heap, hdr *loopInfo, phiBind map[*ssa.Phi]string) *En
 				if phi, isPhi := v.(*ssa.Phi); isPhi && phi.Block() == hdr.header {
 					return TV{phiBind[phi], phi.Type()}, true
 				}
-				return ft.valueAsTV(v, e.heap), true
+				return ft.valueAsTV(v, e.heap, name), true
 			}
 			return TV{}, false
 		}
@@ -556,8 +585,9 @@ func (ft *fnTrans) envAt(h Heap, hdr *loopInfo, phiBind map[*ssa.Phi]string) *En
 }
 
 // valueAsTV: an SSA value as a contract-level value. Address-taken locals (Alloc) denote their content.
-func (ft *fnTrans) valueAsTV(v ssa.Value, h Heap) TV {
-	if a, ok := v.(*ssa.Alloc); ok {
+func (ft *fnTrans) valueAsTV(v ssa.Value, h Heap, name string) TV {
+	// (an Alloc that merely is the *value* of a variable - `schema := &T{...}`, comment "complit"/"new" - stays a pointer)
+	if a, ok := v.(*ssa.Alloc); ok && a.Comment == name {
 		elem := a.Type().(*types.Pointer).Elem()
 		loc := ft.locOf(a)
 		return TV{ft.load(loc, h), elem}
@@ -806,6 +836,9 @@ func (ft *fnTrans) frameCheck(comp, ref string, fresh bool) {
 		return
 	}
 	if strings.HasPrefix(comp, "G:") {
+		if ft.fn.Synthetic == "package initializer" {
+			return // the initialiser initialises the package's variables
+		}
 		for _, m := range ft.modItems {
 			if m.comp == comp {
 				return
@@ -1267,4 +1300,61 @@ func (ft *fnTrans) isCanonicalRangeIndex(li *loopInfo) bool {
 		}
 	}
 	return true
+}
+
+
+// checkInvariantWriters: every function of the package that stores to a package-level variable must be under a
+// (non-trusted) contract, otherwise the package invariants could be broken unnoticed. Decided syntactically.
+func (ft *fnTrans) checkInvariantWriters() {
+	vc := ft.vc
+	sp := ft.fn.Pkg
+	if sp == nil {
+		return
+	}
+	var fns []*ssa.Function
+	for _, m := range sp.Members {
+		switch x := m.(type) {
+		case *ssa.Function:
+			fns = append(fns, x)
+		case *ssa.Type:
+			mset := vc.P.ssaProg.MethodSets.MethodSet(types.NewPointer(x.Type()))
+			for i := 0; i < mset.Len(); i++ {
+				if f := vc.P.ssaProg.MethodValue(mset.At(i)); f != nil && f.Pkg == sp {
+					fns = append(fns, f)
+				}
+			}
+		}
+	}
+	for _, f := range fns {
+		if f.Synthetic != "" || strings.HasSuffix(f.Name(), "_test") {
+			continue
+		}
+		writes := false
+		var scan func(g *ssa.Function)
+		scan = func(g *ssa.Function) {
+			for _, b := range g.Blocks {
+				for _, ins := range b.Instrs {
+					if st, ok := ins.(*ssa.Store); ok {
+						if gl, ok := st.Addr.(*ssa.Global); ok && gl.Pkg == sp && gl.Name() != "init$guard" {
+							writes = true
+						}
+					}
+				}
+			}
+			for _, an := range g.AnonFuncs {
+				scan(an)
+			}
+		}
+		scan(f)
+		if !writes {
+			continue
+		}
+		key := funcKey(f)
+		fc := vc.P.cs.Funcs[key]
+		goal := "true"
+		if fc == nil || fc.Trusted || fc.Extern {
+			goal = "false"
+		}
+		vc.oblige("closed", "pkginv.writer."+shortFuncName(key), "true", goal, "function "+strings.TrimPrefix(key, modulePath+"/")+" stores to a package variable: it must be under a verified contract (package invariants)", 0)
+	}
 }
